@@ -19,26 +19,40 @@ the literals of `p` back) and `EnvOK env p` (the function kinds recorded in `p` 
 `pushFunction` decides on). All three are necessary: see the counterexamples at the end.
 -/
 import JPV.Lemmas.ParsePrintSimRec
+import JPV.Lemmas.ParsePrintBlank
 import JPV.Lemmas.ParsePrintDriverExt
 namespace JPV
 namespace ParsePrint
 open JPV.Peg JPV.Print JPV.PP
 
 /-- **the full-strength statement**: for every abstract path in the domain of the printer, every
-    environment and configuration, parsing the printed path gives what `Build.build` gives — the
-    same tree, or the same error (unknown function ↦ `ErrorFunctionNotFound` with the same text,
-    value-group operand / two current nodes ↦ `ErrorInvalidSyntax` with the corresponding reason). -/
+    environment and configuration, `Parse` of the printed path answers EXACTLY
+    `expected env cfg p` (JPV/Lemmas/ParsePrintSimTop.lean):
+
+      * the tree `Build.build env cfg (texts p)` builds, when it builds one;
+      * `ErrorFunctionNotFound{function: t}` when `Build.build` fails with `funcNotFound t`;
+      * `ErrorInvalidSyntax{position: errPos env cfg p, reason: …, near: print p from errPos on}`
+        when `Build.build` fails with `valueGroupOperand` / `twoCurrentNodes`, where `errPos`
+        (JPV/Lemmas/ParsePrintPos.lean) is the rune offset in the printed path of the operand that is
+        a value group resp. of the comparison between two `@`-paths. -/
 def ParsePrint_full : Prop :=
   ∀ (env : Env) (ext : Ext) (cfg : Cfg) (p : Path), wf p = true → ExtOK ext p → EnvOK env p →
-    Agree (Build.build env cfg (texts p)) (parseModel env ext cfg (printS p))
+    parseModel env ext cfg (printS p) = expected env cfg p
 
 /-- the full-strength statement holds -/
-theorem ParsePrint_holds : ParsePrint_full := by
+theorem ParsePrint_exact : ParsePrint_full := by
   intro env ext cfg p hp hext henv
   obtain ⟨h, ss, fns⟩ := p
   cases h with
   | cur => simp [wf] at hp
-  | root => exact parse_print_all env ext cfg ss fns hp hext henv
+  | root => exact parse_print_exact env ext cfg ss fns hp hext henv
+
+/-- … in the form "the two outcomes agree" -/
+theorem ParsePrint_holds (env : Env) (ext : Ext) (cfg : Cfg) (p : Path) (hp : wf p = true)
+    (hext : ExtOK ext p) (henv : EnvOK env p) :
+    Agree (Build.build env cfg (texts p)) (parseModel env ext cfg (printS p)) := by
+  rw [ParsePrint_exact env ext cfg p hp hext henv]
+  exact agree_expected env cfg p
 
 /-- **fragment (d)** = the whole domain: steps of every kind, trailing functions, filters with
     existence tests, comparisons (literal/path operands on either side), regular expressions,
@@ -111,27 +125,46 @@ theorem ParsePrint_functionNotFound (env : Env) (ext : Ext) (cfg : Cfg) (p : Pat
   | functionNotFound t' => rw [hx] at h; simp only [Agree] at h; rw [h]
   | _ => rw [hx] at h; simp [Agree] at h
 
+/-- a value-group path as an operand of a comparison: `ErrorInvalidSyntax` at the operand -/
 theorem ParsePrint_valueGroup (env : Env) (ext : Ext) (cfg : Cfg) (p : Path) (hp : wf p = true)
     (hext : ExtOK ext p) (henv : EnvOK env p)
     (hb : Build.build env cfg (texts p) = .error .valueGroupOperand) :
-    ∃ pos near, parseModel env ext cfg (printS p) =
-      .syntaxErr pos "JSONPath that returns a value group is prohibited" near := by
-  have h := ParsePrint_holds env ext cfg p hp hext henv
-  rw [hb] at h
-  cases hx : parseModel env ext cfg (printS p) with
-  | syntaxErr pos r near => rw [hx] at h; simp only [Agree] at h; exact ⟨pos, near, by rw [h]; rfl⟩
-  | _ => rw [hx] at h; simp [Agree] at h
+    parseModel env ext cfg (printS p) =
+      .syntaxErr (errPos env cfg p) "JSONPath that returns a value group is prohibited"
+        (String.ofList ((print p).drop (errPos env cfg p))) := by
+  rw [ParsePrint_exact env ext cfg p hp hext henv, expected, hb]
+  rfl
 
+/-- a comparison of two `@`-paths: `ErrorInvalidSyntax` at the comparison -/
 theorem ParsePrint_twoCurrentNodes (env : Env) (ext : Ext) (cfg : Cfg) (p : Path) (hp : wf p = true)
     (hext : ExtOK ext p) (henv : EnvOK env p)
     (hb : Build.build env cfg (texts p) = .error .twoCurrentNodes) :
-    ∃ pos near, parseModel env ext cfg (printS p) =
-      .syntaxErr pos "comparison between two current nodes is prohibited" near := by
-  have h := ParsePrint_holds env ext cfg p hp hext henv
-  rw [hb] at h
-  cases hx : parseModel env ext cfg (printS p) with
-  | syntaxErr pos r near => rw [hx] at h; simp only [Agree] at h; exact ⟨pos, near, by rw [h]; rfl⟩
-  | _ => rw [hx] at h; simp [Agree] at h
+    parseModel env ext cfg (printS p) =
+      .syntaxErr (errPos env cfg p) "comparison between two current nodes is prohibited"
+        (String.ofList ((print p).drop (errPos env cfg p))) := by
+  rw [ParsePrint_exact env ext cfg p hp hext henv, expected, hb]
+  rfl
+
+/-! ### C18, first slice: blanks in front of and behind the path are insignificant -/
+
+/-- `Parse` of `␣…␣ print p ␣…␣` agrees with `Build.build` on the recorded texts of the plain spelling -/
+theorem ParsePrint_blanks (env : Env) (ext : Ext) (cfg : Cfg) (k m : Nat) (p : Path) (hp : wf p = true)
+    (hext : ExtOK ext p) (henv : EnvOK env p) :
+    Agree (Build.build env cfg (texts p)) (parseModel env ext cfg (String.ofList (printBlanks k m p))) := by
+  obtain ⟨h, ss, fns⟩ := p
+  cases h with
+  | cur => simp [wf] at hp
+  | root => exact parse_print_blanks env ext cfg k m ss fns hp hext henv
+
+/-- … and a tree is the SAME tree as for the plain spelling, recorded texts included -/
+theorem ParsePrint_blanks_same (env : Env) (ext : Ext) (cfg : Cfg) (k m : Nat) (p : Path) (hp : wf p = true)
+    (hext : ExtOK ext p) (henv : EnvOK env p) (ch : List N)
+    (hplain : parseModel env ext cfg (printS p) = .ok ch) :
+    parseModel env ext cfg (String.ofList (printBlanks k m p)) = .ok ch := by
+  obtain ⟨h, ss, fns⟩ := p
+  cases h with
+  | cur => simp [wf] at hp
+  | root => exact parse_print_blanks_same env ext cfg k m ss fns hp hext henv ch hplain
 
 /-! ### the hypotheses are satisfiable: a concrete environment, a concrete `Ext`, concrete paths -/
 
@@ -197,6 +230,11 @@ theorem exPath_env : EnvOK exEnv exPath := by
 example (cfg : Cfg) : Agree (Build.build exEnv cfg (texts exPath)) (parseModel exEnv exExt cfg (printS exPath)) :=
   ParsePrint_holds exEnv exExt cfg exPath exPath_wf exPath_ext exPath_env
 
+/-- … also with two blanks in front and one behind -/
+example (cfg : Cfg) : Agree (Build.build exEnv cfg (texts exPath))
+    (parseModel exEnv exExt cfg (String.ofList (printBlanks 2 1 exPath))) :=
+  ParsePrint_blanks exEnv exExt cfg 2 1 exPath exPath_wf exPath_ext exPath_env
+
 /-- an unregistered function: `$.a.h()` -/
 def exMissing : Path := .mk .root [.child "" "a"] [.ffn "" "h"]
 
@@ -252,6 +290,6 @@ example : accepted (print (.mk .root [.filter "" (.cmp .lt (.path (.mk .cur [.ch
 end ParsePrint
 end JPV
 
--- OBLIGATIONS: ParsePrint_holds ParsePrint_fragment_A ParsePrint_fragment_B ParsePrint_fragment_D
---   ParsePrint_ok ParsePrint_functionNotFound ParsePrint_valueGroup ParsePrint_twoCurrentNodes
---   exPath_wf exPath_ext exPath_env
+-- OBLIGATIONS: ParsePrint_exact ParsePrint_holds ParsePrint_fragment_A ParsePrint_fragment_B
+--   ParsePrint_fragment_D ParsePrint_ok ParsePrint_functionNotFound ParsePrint_valueGroup
+--   ParsePrint_twoCurrentNodes ParsePrint_blanks ParsePrint_blanks_same exPath_wf exPath_ext exPath_env
